@@ -1,17 +1,30 @@
 """C16 - catalogs span the product of their controllers; operators stay inside it."""
 import time
 
-CONTRACT_MODULES = ['c16_controller', 'c16_configuration']
+CONTRACT_MODULES = ['c16_controller', 'c16_configuration', 'c16c_ctor', 'c16c_central']
 LEVEL = 'other'
 TRUSTED = ['pyvc (VC generator, Python semantics of the stated subset)', 'z3 5.1.0 / cvc5',
            'pyvc/libext/c16_modconst.py (imported module constants, tuple(seq), Configuration.selections getter, random.choices LIBSPEC)',
            'ASSUMED contract CentralController.get_configuration (out of subset; exercised natively)',
-           'AST analyses of contracts/c16_static.py for the stated syntactic classes']
+           'AST analyses of contracts/c16_static.py for the stated syntactic classes',
+           'pyvc/libext/c16c_ext.py (round 2: tuple+sequence, len(set(seq)) pigeonhole, list[str]==list[str], NamedTuple objects built in a '
+           'comprehension, super().__init__ inlined, classmethod cls, property setter, iter(set)/next ghost position, sorted() triggers, '
+           'modifies-free contracts under a binder)',
+           'specs/c16c_specs.py (has_class, set_at, iter_pos, iter_over)',
+           'ASSUMED contracts (round 2): validate_and_convert returns an Expression argument unchanged; Expression.contains_catalog is a pure '
+           'function; Expression.configure_catalogs records its argument in the GHOST field ghost_configured and may move controllers; '
+           'Expression.set_of_configurations returns central_controller.all_configurations',
+           'AST analyses of contracts/c16c_static.py for the stated syntactic classes']
 ASSUMPTIONS = ['A-INT: Python ints are mathematical integers; a % n for n > 0 is the r of a = q*n + r, 0 <= r < n',
                'A-STR: strings are atoms (only ==, <, `in` as an uninterpreted predicate); split/join are not modelled, so '
                'the identifier round trip is decided natively (bounded)',
                'A-CONFIG-INV: a Configuration lists no controller twice (proved for __check_list_validity; static: only the '
-               'validating setter writes the list)']
+               'validating setter writes the list)',
+               'A-CLS: in the classmethod Catalog.from_dict, cls is Catalog (static: Catalog has no subclass)',
+               'A-SET-IDENTITY: sets hold objects (static obligation on Controller.__eq__/__hash__; FAILS on a tree where controllers '
+               'compare by name)',
+               'A-TYPED: Catalog.__init__/from_dict receive inputs of the annotated classes (requires typed_*)',
+               'LIBSPEC set enumeration: positions 0..len(s)-1 of a set deliver every member exactly once (iteration exactly once rests on it)']
 EXPLANATION = ('Deductive (all inputs): Controller.set_index/set_name/modify_controller (range check, circular = (c+s) mod n, clamped, '
                'other controllers untouched), Catalog.selected (member at the controller index), MultipleExpression.__init__ rejects '
                'separators, Configuration.__check_list_validity/get_selection, CentralController.set_controller/set_configuration '
@@ -20,10 +33,19 @@ EXPLANATION = ('Deductive (all inputs): Controller.set_index/set_name/modify_con
                'MultipleExpression, coverage of the recursive tree operations, writers of the private lists, operators return the '
                'configuration read after the last move.  Bounded native stand-ins (never counted as proved): product count, '
                'enumeration, iteration exactly once, shared controllers, value == hand-written formula, identifier order-independence and '
-               'round trip, constructors refuse names that break the identifier, operator sequences, helper generators.')
+               'round trip, constructors refuse names that break the identifier, operator sequences, helper generators.  '
+               'Round 2 (c16c), deductive for all inputs: Controller.__init__, Catalog.__init__ and Catalog.from_dict (BiogemeError IFF the names are '
+               'inadmissible or differ from the shared controller\'s names AS SEQUENCES; controller names == member names position by position, so '
+               'catalogs sharing a controller follow it by name), get_configuration (one selection per controller; BiogemeError iff two controllers share '
+               'a name), SelectedExpressionsIterator / Expression.__iter__ (call k returns the expression configured with element k-1 of the set '
+               'enumeration, StopIteration after the last); static: both helper generators build ONE controller and take controller names and member '
+               'names from the same function of the same list / the same literals; Controller equality must be identity (new defect: two different '
+               'controllers with one name are merged by get_all_controllers).')
 LEVEL_TEXT = ('Mixed: deductive proof per function on the controller/configuration layer, AST-static obligations for the delegation '
               'layer, bounded native stand-ins (<= 3 controllers x <= 3 alternatives, sequences <= 20, identifiers <= 4 selections) '
-              'for enumeration, iteration, identifiers and the helper generators.')
+              'for enumeration, iteration, identifiers and the helper generators.  Round 2: the constructors, get_configuration (count and '
+              'raise condition) and the iterator protocol are deductive; CentralController.__init__ (product, enumeration) and the text of '
+              'identifiers stay bounded.')
 LEVEL_NOTE = ('Trusted: pyvc + the C16 libext, z3/cvc5, the assumed get_configuration contract; strings are atoms, so everything '
               'about the text of identifiers is bounded.')
 TECHNIQUE = 'contract-based deductive verification (AST -> VCs -> z3/cvc5) + AST-static obligations + bounded stand-ins on the real code'
@@ -46,6 +68,15 @@ n, bad = c16_native.delegation_cases(only=[{meth!r}] if {meth!r} else None)
 n2, bad2 = c16_native.structure_cases(limit=8)
 violated = bool(bad or bad2)
 detail = f'{{n}} spied calls, {{n2}} structure cases; first mismatch: {{(bad + bad2)[0] if (bad or bad2) else None}}'
+"""
+
+_C16C = """
+import sys
+sys.path.insert(0, '/verif/bounded')
+import c16c_ctor_native as N
+n, bad = N.FAMILIES[{fam!r}]()
+violated = bool(bad)
+detail = f'{{n}} cases; first mismatch: {{bad[0] if bad else None}}'
 """
 
 _LEMMA = """
@@ -75,6 +106,11 @@ class _Replays(dict):
             return _NATIVE.format(fam='invariant')
         if ':static:Configuration.' in name:
             return _NATIVE.format(fam='identifier')
+        for key, fam in ((':static:Controller.__eq__', 'same_name'), (':static:segmentation_catalogs', 'helpers'),
+                         (':static:generic_alt_specific_catalogs', 'helpers'), (':static:Catalog:no-subclass', 'from_dict'),
+                         (':static:ghost_configured', 'iterator'), (':static:Expression.configure_catalogs', 'iterator')):
+            if key in name:
+                return _C16C.format(fam=fam)
         if ':lemma:' in name:
             return _LEMMA
         return default
@@ -130,6 +166,13 @@ def extra(tier, seed):
         out.append(Extra(f'C16:static:{name}', 'static', 'discharged' if ok else 'failed', 'ast-static',
                          round(time.time() - t0, 3), detail, witness if not ok else None))
         t0 = time.time()
+    # round 2 (c16c): static obligations on the constructors' environment and the helper generators
+    from contracts import c16c_static
+    t0 = time.time()
+    for name, ok, detail, witness in c16c_static.all_static(get_repo()):
+        out.append(Extra(f'C16:static:{name}', 'static', 'discharged' if ok else 'failed', 'ast-static',
+                         round(time.time() - t0, 3), detail, witness if not ok else None))
+        t0 = time.time()
     out += _lemmas()
     bounds = {
         'structure': '22 generated structures (<= 3 controllers x <= 3 alternatives, shared, nested, segmentation_catalogs, '
@@ -156,4 +199,14 @@ def extra(tier, seed):
         out.append(run_native(names[fam], 'c16_native.py', [tier, str(seed), fam], bound=bound))
     out.append(run_native('C16:bounded:catalogs-sharing-a-controller-follow-by-name', 'c16_shared_order.py', [],
                           bound='2-3 alternatives, every order of the member names of a second catalog sharing the controller, list and from_dict construction'))
+    # round 2 (c16c): native evaluation of the clauses of the constructor / iterator contracts, the helpers end to end,
+    # and formulas in which two DIFFERENT controllers have ONE name
+    out.append(run_native('C16:bounded:constructor-and-iterator-contract-clauses-natively', 'c16c_ctor_native.py',
+                          ['controller_ctor,catalog_ctor,from_dict,get_configuration,iterator'],
+                          bound='12 name lists x 3 controller names; catalogs of <= 4 members x every permutation / longer / shorter controller; '
+                                'formulas of <= 3 catalogs of <= 4 members'))
+    out.append(run_native('C16:bounded:helper-generators-share-one-controller-names-in-order', 'c16c_ctor_native.py', ['helpers'],
+                          bound='<= 3 segmentations x maximum 0..3 x <= 3 parameters; 2-3 alternatives x <= 2 parameters x with/without segmentation'))
+    out.append(run_native('C16:bounded:different-controllers-with-one-name-refused-or-both-enumerated', 'c16c_ctor_native.py', ['same_name'],
+                          bound='two catalogs of sizes (2,3), (2,2), (1,2) whose controllers are different objects with one name'))
     return out
